@@ -339,3 +339,23 @@ func VerifPullPath() {
 	symapi.Assert(c.path == p, "pulled-stream-published-under-the-requested-path")
 	symapi.Reach("end")
 }
+
+// VerifPullFactoryPaths (C17 / C20): the pull factory publishes every pulled stream under the
+// path it was asked for - also when the same camera URL is already being pulled for another
+// path (an exact route and a directory route resolving to one URL), or for the same path.
+func VerifPullFactoryPaths() {
+	f := &pullStreamFactory{}
+	remote := "rtsp://cam/live/cam1"
+	verifConnectFails = false
+	verifCamConn = &verifCam{sdp: verifSdp}
+	s1, err1 := f.Create("/cam1", remote)
+	symapi.Quiesce()
+	symapi.Assert(err1 == nil && s1 != nil && s1.Path() == "/cam1", "first-pull-published-under-its-path")
+	second := []string{"/all/cam1", "/cam1", "/all/cam1/x"}[symapi.Choose("secondPath", 3)]
+	verifCamConn = &verifCam{sdp: verifSdp}
+	s2, err2 := f.Create(second, remote)
+	symapi.Quiesce()
+	symapi.Assert(err2 == nil && s2 != nil, "second-pull-of-the-same-source-succeeds")
+	symapi.Assert(s2.Path() == second, "pulled-stream-published-under-the-requested-path-although-the-source-is-already-pulled")
+	symapi.Reach("end")
+}
